@@ -25,6 +25,7 @@
   fresh-constant-model oracle of c12.py on the real code.
 -/
 import Optyx.Lemmas.StateParam
+import Optyx.Lemmas.StateDegree
 
 namespace Optyx.Props.C12
 open Optyx Optyx.Py Optyx.Py.State NumAlg
@@ -54,6 +55,15 @@ theorem param_not_constant :
     (∀ p, asConst (.param p) = none) ∧
     (∀ row cs, allConst row = some cs → ∀ e ∈ row, ∃ c, e = Expr.const c) :=
   ⟨fun _ => rfl, allConst_mem⟩
+
+/-- a Parameter has no polynomial degree: every expression containing one is classified `None` by
+    the degree analysis (model `Py.degree` of `_compute_degree_impl`), is therefore never linear, so
+    `solve("auto")` never takes the LP path and `solve("linprog")` raises — no parameter value is
+    ever frozen into extracted LP data -/
+theorem param_has_no_degree (e : Expr) (h : hasParam e = true) :
+    Py.degree e = none ∧ Py.isLinear e = false := by
+  have hd := degree_none_of_hasParam e h
+  exact ⟨hd, by simp [Py.isLinear, hd]⟩
 
 /-- calling the Jacobian artefact of the parametric model under the current store = calling the
     freshly built artefact of the constant model — even when the two took different compile paths
